@@ -29,6 +29,9 @@ ASSUMPTIONS = [
 PROFILES = ["fibers"]
 
 SCENARIOS = [
+    ("every-fiber-has-its-own-call-depth",
+     'fn dive(n, f) { if n == 0 { return f(); } return dive(n - 1, f) + 1; }\nvar fibers = [];\nfor i in 0..3 { fibers.push(Fiber.new(|| dive(20, || Fiber.yield("parked")))); }\nfor f in fibers { print(f.call()); }\nfn deep(n) { if n == 0 { return 0; } return deep(n - 1) + 1; }\nprint("main depth " + String.from(deep(30)) + " ok");\nfor f in fibers { print(f.call(100)); }\nprint(deep(50));\n',
+     ["parked", "parked", "parked", "main depth 30 ok", "120", "120", "120", "50"], "ok"),
     ("yield-inside-finally-while-an-exception-propagates",
      'var f = Fiber.new(|| { try { try { throw "boom"; } finally { print("cleanup"); Fiber.yield("in finally"); print("resumed in finally"); } print("not here"); } catch e { print("caught " + e); } return "done"; });\nprint(f.call()); print("main between"); print(f.call()); print(f.has_finished());\n',
      ["cleanup", "in finally", "main between", "resumed in finally", "caught boom", "done", "true"], "ok"),
